@@ -12,6 +12,7 @@
   RigoProofs/C10Tm.lean.  FINDINGS are stated as witnesses at the end.
 -/
 import RigoProofs.C10Ledger
+import RigoProofs.C10Params
 open Std
 
 namespace Rigo.C10
@@ -173,14 +174,24 @@ theorem valset_mirror_from_genesis {f : Hex → Hex} (finj : Injective f) (g : G
     applyUpdates (genesisSet g) (updatesOf (run (initChain g) ops).2) = asSet (exec (initChain g) ops).lastVals :=
   TM.valset_mirror_from_genesis finj g ops hin hp hfirst
 
-/-- what is still open, as a statement: the same with the parameter hypothesis only on the INPUTS (genesis
-    parameters and the options of passed governance proposals) instead of on the states of the history -/
-def valset_mirror_params_statement : Prop :=
-  ∀ (f : Hex → Hex), Injective f → ∀ (g : Genesis) (ops : List Op), InputsOK f g ops →
+/-- **valset_mirror_params**: the same with the parameter hypothesis on the INPUTS only — the genesis
+    parameters are sane and every option of every delivered proposal, merged into the genesis parameters, is
+    sane.  `RatioOK` / `MinStakeOK` are per-field predicates and `mergeParams` is field-wise, so an option
+    that is sane over the genesis parameters is sane over any sane base (`C10P.optGood_of_merge`), which
+    covers several successive proposals; the invariant `C10P.PInv` carries "active / pending parameters are
+    sane and every option of every open or frozen proposal is sane" through every operation (the apply-time
+    parse `parsedA` is the one `applyProposals` merges). -/
+theorem valset_mirror_params :
+    ∀ (f : Hex → Hex), Injective f → ∀ (g : Genesis) (ops : List Op), InputsOK f g ops →
     RatioOK g.params → MinStakeOK g.params →
     (∀ op ∈ ops, ∀ tx msg st pe ap ty opts, op = Op.deliver tx → tx.payload = Payload.proposal msg st pe ap ty opts →
       ∀ o ∈ opts, ∀ po, o.parsedA = some po → RatioOK (mergeParams g.params po) ∧ MinStakeOK (mergeParams g.params po)) →
-    applyUpdates ∅ (updatesOf (run (initChain g) ops).2) = asSet (exec (initChain g) ops).lastVals
+    applyUpdates ∅ (updatesOf (run (initChain g) ops).2) = asSet (exec (initChain g) ops).lastVals :=
+  C10P.valset_mirror_params
+
+/-- non-vacuity: a seven-block history in which a two-option proposal (slash ratio 30 and a higher minimum
+    validator stake / gas price only) is delivered meets the hypotheses -/
+example := C10P.exOps_optionsOK
 
 /-! ## findings (witnesses) -/
 
